@@ -803,43 +803,7 @@ def check_scanners(ctx, lib):
         ctx.check(ok, rule, "alt", "alt(expected, a, b): consumes the next character and yields a only if it equals `expected`, else yields b", al.span)
     # '=' must be followed by '='
     tk = lib.fn(L + "tokenize")
-    # numbers
-    cn = ctx.fn(L + "consume_number", rule=rule)
-    if cn is not None:
-        o = Origins(cn, lib)
-        pc = [t for _, t in cn.calls() if t["callee"] == "core::str::<impl str>::parse"]
-        ok = len(pc) == 1 and pc[0]["callee_args"] == ["i32"]
-        me = [t for _, t in cn.calls() if t["callee"] == "std::result::Result::<T, E>::map_err"]
-        ok = ok and len(me) == 1
-        unwraps = [t["callee"] for _, t in cn.calls() if re.search(r"::(unwrap|expect|unwrap_or|unwrap_or_default|unwrap_or_else)$", t["callee"])]
-        ctx.check(ok and not unwraps, rule, "number-32bit", "a number lexeme goes through a fallible str::parse::<i32>() whose failure becomes a parse error (32-bit rule)", cn.span)
-        clos = [c for c in lib.closures_of(L + "consume_number")]
-        dig = [closure_true_set(lib, c) for c in clos]
-        ctx.check(ISet([(0x30, 0x39)]) in dig, rule, "number-digits", "a number continues over ASCII digits only", cn.span)
-    nn = ctx.fn(L + "consume_negative_number", rule=rule)
-    if nn is not None:
-        o = Origins(nn, lib)
-        br = Branches(nn, o)
-        calls = [(bb, t) for bb, t in nn.calls() if t["callee"] == L + "consume_number"]
-        ok = len(calls) == 1 and o.of_operand(calls[0][1]["args"][-1]) == {("const", 1)}
-        if ok:
-            site = calls[0][0]
-            num = nz = False
-            for sb, sw in br.switches():
-                be = br.bool_edges(sb)
-                if not be:
-                    continue
-                for c in br.cond(sb):
-                    if c[0] == "call" and c[1].split("::")[-1] in ("is_numeric", "is_ascii_digit", "is_digit") and edge_dominates(nn, (sb, be[0]), site):
-                        num = True
-                    if c[0] == "bin" and c[1] == "Ne" and ("const", ord("0")) in (c[2], c[3]) and edge_dominates(nn, (sb, be[0]), site):
-                        nz = True
-                    if c[0] == "bin" and c[1] == "Eq" and ("const", ord("0")) in (c[2], c[3]) and edge_dominates(nn, (sb, be[1]), site):
-                        nz = True
-            ok = num and nz
-            errs = [s for _, _, s in region_aggs(nn, nn.reachable(), "std::result::Result") if s["rv"]["variant"] == "Err"]
-            ok = ok and len(errs) >= 1
-        ctx.check(ok, rule, "minus-needs-nonzero-digit", "'-' must be followed by a digit other than '0', otherwise a parse error", nn.span)
+    check_number_lexing(ctx, lib, rule)
     # delimited forms
     ins = ctx.fn(L + "consume_inside", rule=rule)
     if ins is not None:
@@ -885,6 +849,50 @@ def check_scanners(ctx, lib):
                     res = region_aggs(c, reg, "std::result::Result")
                     ok = any(s["rv"]["variant"] == "Err" for _, _, s in res) and not any(s["rv"]["variant"] == "Ok" for _, _, s in res)
         ctx.check(ok, rule, f"invalid-{what.replace(' ', '-')}", f"a {what} whose contents are not valid JSON is a parse error", bq.span)
+    # ... and "valid JSON" means the whole contents: the parse routine itself rejects trailing characters (shared with C08)
+    from .c08 import check_from_json
+    check_from_json(ctx, lib, rule)
+
+
+def check_number_lexing(ctx, lib, rule):
+    """The integer written is the integer used: digits are ASCII, the lexeme goes through a fallible i32 parse, '-' needs a non-zero digit."""
+    # numbers
+    cn = ctx.fn(L + "consume_number", rule=rule)
+    if cn is not None:
+        o = Origins(cn, lib)
+        pc = [t for _, t in cn.calls() if t["callee"] == "core::str::<impl str>::parse"]
+        ok = len(pc) == 1 and pc[0]["callee_args"] == ["i32"]
+        me = [t for _, t in cn.calls() if t["callee"] == "std::result::Result::<T, E>::map_err"]
+        ok = ok and len(me) == 1
+        unwraps = [t["callee"] for _, t in cn.calls() if re.search(r"::(unwrap|expect|unwrap_or|unwrap_or_default|unwrap_or_else)$", t["callee"])]
+        ctx.check(ok and not unwraps, rule, "number-32bit", "a number lexeme goes through a fallible str::parse::<i32>() whose failure becomes a parse error (32-bit rule)", cn.span)
+        clos = [c for c in lib.closures_of(L + "consume_number")]
+        dig = [closure_true_set(lib, c) for c in clos]
+        ctx.check(ISet([(0x30, 0x39)]) in dig, rule, "number-digits", "a number continues over ASCII digits only", cn.span)
+    nn = ctx.fn(L + "consume_negative_number", rule=rule)
+    if nn is not None:
+        o = Origins(nn, lib)
+        br = Branches(nn, o)
+        calls = [(bb, t) for bb, t in nn.calls() if t["callee"] == L + "consume_number"]
+        ok = len(calls) == 1 and o.of_operand(calls[0][1]["args"][-1]) == {("const", 1)}
+        if ok:
+            site = calls[0][0]
+            num = nz = False
+            for sb, sw in br.switches():
+                be = br.bool_edges(sb)
+                if not be:
+                    continue
+                for c in br.cond(sb):
+                    if c[0] == "call" and c[1].split("::")[-1] in ("is_numeric", "is_ascii_digit", "is_digit") and edge_dominates(nn, (sb, be[0]), site):
+                        num = True
+                    if c[0] == "bin" and c[1] == "Ne" and ("const", ord("0")) in (c[2], c[3]) and edge_dominates(nn, (sb, be[0]), site):
+                        nz = True
+                    if c[0] == "bin" and c[1] == "Eq" and ("const", ord("0")) in (c[2], c[3]) and edge_dominates(nn, (sb, be[1]), site):
+                        nz = True
+            ok = num and nz
+            errs = [s for _, _, s in region_aggs(nn, nn.reachable(), "std::result::Result") if s["rv"]["variant"] == "Err"]
+            ok = ok and len(errs) >= 1
+        ctx.check(ok, rule, "minus-needs-nonzero-digit", "'-' must be followed by a digit other than '0', otherwise a parse error", nn.span)
 
 
 def peeked_char_table(lib, b, table, default):
